@@ -796,6 +796,27 @@ def stepWasm (st : WState) (line : String) : WState × String :=
       | some s, some e =>
         (st, fmtRecords (((app.ch.cstore.get? (real (a 1))).getD []).range s e (if a 4 == "desc" then .desc else .asc)))
       | _, _ => (st, "bad-op")
+    | "cs-set" =>
+      match unhex (a 2), unhex (a 3) with
+      | some k, some v =>
+        -- MemoryStorage refuses empty values (cosmwasm-std); App::contract_storage_mut writes straight into the window
+        if v.isEmpty then (st, "panic") else
+        let own := (app.ch.cstore.get? (real (a 1))).getD []
+        (setApp st { app with ch := { app.ch with cstore := app.ch.cstore.set (real (a 1)) (own.set k v) } }, "ok")
+      | _, _ => (st, "bad-op")
+    | "cs-rm" =>
+      match unhex (a 2) with
+      | some k =>
+        let own := (app.ch.cstore.get? (real (a 1))).getD []
+        (setApp st { app with ch := { app.ch with cstore := app.ch.cstore.set (real (a 1)) (own.remove k) } }, "ok")
+      | none => (st, "bad-op")
+    | "cs-get" =>
+      match unhex (a 2) with
+      | some k =>
+        (st, match ((app.ch.cstore.get? (real (a 1))).getD []).get k with
+             | some v => "some " ++ hex v
+             | none => "none")
+      | none => (st, "bad-op")
     | "dump" => (st, fmtDump app)
     | "rawhash" => (st, "!")
     | "nondet" => (st, "!")       -- verdict slot of slice wasm-bech-mix (implementation-only)
